@@ -113,6 +113,10 @@ func (c Case) Script() string {
 			return s + "reterr:0"
 		}
 		return s + "ret:0"
+	case "hintwrite":
+		// an informational header (103 Early Hints) before the response
+		s := hdr + "status:103;status:" + strconv.Itoa(b.S) + ";text:" + handlerBody + ";"
+		return s + "ret:0"
 	case "writeret":
 		// breaks the handler contract: writes a 200 response, then returns an error status
 		s := hdr
@@ -308,7 +312,7 @@ func ViolationsC12(c Case, o Obs) []string {
 		}
 	}
 	// WrittenUnalteredP (+ the header clause: only configured header changes)
-	if b.K == "write" {
+	if b.K == "write" || b.K == "hintwrite" {
 		want := []string{"B"}
 		if noBody(b.S) {
 			want = []string{}
